@@ -731,53 +731,102 @@ Definition run_http (ws : list bytes) : bytes :=
   | _ => bad_case
   end.
 
-(* DECODE family ef text urltab : serde_json::from_slice on the text, outside any HTTP flow *)
+(* serialise, read back, serialise again *)
+Definition built_rt {A} (dec : json -> option A) (enc : A -> json) (rend : A -> bytes) (v : A) : bytes :=
+  let j := json_print (enc v) in
+  unwords [s2b "ok"; rend v; tok_bytes j; s2b "rt";
+           match from_body dec j with
+           | Some v' => unwords [rend v'; tok_bytes (json_print (enc v'))]
+           | None => s2b "err"
+           end].
+
+Definition decode_rt {A} (dec : json -> option A) (enc : A -> json) (rend : A -> bytes)
+           (text : bytes) : bytes :=
+  match from_body dec text with
+  | None => s2b "err"
+  | Some v => built_rt dec enc rend v
+  end.
+
+Definition render_error_short {T} (as_ref : T -> bytes) (e : error_response T) : bytes :=
+  colon [s2b "err"; tok_bytes (as_ref (er_error e)); tok_opt (er_description e); tok_opt (er_uri e);
+         tok_bytes (display_error as_ref e)].
+
+(* DECODE family ef text urltab : serde_json::from_slice on the text, outside any HTTP flow,
+   followed by a serialise / deserialise / serialise round trip of the accepted value *)
 Definition run_decode (ws : list bytes) : bytes :=
   match ws with
   | [fam; efk; text; urltab] =>
       match untok_bytes text, url_table urltab with
       | Some text, Some url_ok =>
           let use_ext := is_kw "X" efk in
-          let err := s2b "err" in
           if is_kw "token" fam then
-            if use_ext then
-              match from_body (decode_token ef_ext) text with
-              | Some v => ok_val (render_token render_ext v) (json_print (encode_token ef_ext v))
-              | None => err end
-            else
-              match from_body (decode_token ef_empty) text with
-              | Some v => ok_val (render_token render_unit v) (json_print (encode_token ef_empty v))
-              | None => err end
+            if use_ext then decode_rt (decode_token ef_ext) (encode_token ef_ext) (render_token render_ext) text
+            else decode_rt (decode_token ef_empty) (encode_token ef_empty) (render_token render_unit) text
           else if is_kw "introspection" fam then
-            if use_ext then
-              match from_body (decode_introspection ef_ext) text with
-              | Some v => ok_val (render_introspection render_ext v) (json_print (encode_introspection ef_ext v))
-              | None => err end
-            else
-              match from_body (decode_introspection ef_empty) text with
-              | Some v => ok_val (render_introspection render_unit v) (json_print (encode_introspection ef_empty v))
-              | None => err end
+            if use_ext then decode_rt (decode_introspection ef_ext) (encode_introspection ef_ext) (render_introspection render_ext) text
+            else decode_rt (decode_introspection ef_empty) (encode_introspection ef_empty) (render_introspection render_unit) text
           else if is_kw "device" fam then
-            if use_ext then
-              match from_body (decode_device_auth url_ok ef_ext) text with
-              | Some v => ok_val (render_device_auth render_ext v) (json_print (encode_device_auth ef_ext v))
-              | None => err end
-            else
-              match from_body (decode_device_auth url_ok ef_empty) text with
-              | Some v => ok_val (render_device_auth render_unit v) (json_print (encode_device_auth ef_empty v))
-              | None => err end
+            if use_ext then decode_rt (decode_device_auth url_ok ef_ext) (encode_device_auth ef_ext) (render_device_auth render_ext) text
+            else decode_rt (decode_device_auth url_ok ef_empty) (encode_device_auth ef_empty) (render_device_auth render_unit) text
           else if is_kw "err-basic" fam then
-            match from_body (decode_error basic_from_str) text with
-            | Some e => render_error basic_as_ref e | None => err end
+            decode_rt (decode_error basic_from_str) (encode_error basic_as_ref) (render_error_short basic_as_ref) text
           else if is_kw "err-device" fam then
-            match from_body (decode_error device_from_str) text with
-            | Some e => render_error device_as_ref e | None => err end
+            decode_rt (decode_error device_from_str) (encode_error device_as_ref) (render_error_short device_as_ref) text
           else if is_kw "err-revocation" fam then
-            match from_body (decode_error revocation_from_str) text with
-            | Some e => render_error revocation_as_ref e | None => err end
+            decode_rt (decode_error revocation_from_str) (encode_error revocation_as_ref) (render_error_short revocation_as_ref) text
           else bad_case
       | _, _ => bad_case
       end
+  | _ => bad_case
+  end.
+
+(* BUILT: values made with new()/set_*() from the given leaves *)
+Definition parse_tt (t : bytes) : option token_type :=
+  if is_kw "bearer" t then Some Bearer else if is_kw "mac" t then Some Mac
+  else match t with
+       | "e"%char :: "x"%char :: "t"%char :: ":"%char :: r => option_map TExtension (untok_bytes r)
+       | _ => None
+       end.
+Definition untok_optlist (t : bytes) : option (option (list bytes)) :=
+  match t with ["-"%char] => Some None | _ => option_map Some (untok_list t) end.
+Definition untok_optZ (t : bytes) : option (option Z) :=
+  match t with ["-"%char] => Some None | _ => option_map Some (Z_of_dec t) end.
+
+Definition run_built (ws : list bytes) : bytes :=
+  match ws with
+  | [fam; a; b; c; d; e; f] =>
+      if is_kw "token" fam then
+        match untok_bytes a, parse_tt b, untok_optN c, untok_opt d, untok_optlist e with
+        | Some a, Some b, Some c, Some d, Some e =>
+            built_rt (decode_token ef_empty) (encode_token ef_empty) (render_token render_unit)
+              {| tr_access := a; tr_type := b; tr_expires := c; tr_refresh := d; tr_scopes := e; tr_extra := tt |}
+        | _, _, _, _, _ => bad_case
+        end
+      else if is_kw "introspection" fam then
+        match untok_bool a, untok_optlist b, untok_opt c, (match d with ["-"%char] => Some None | _ => option_map Some (parse_tt d) end),
+              untok_optZ e, untok_optlist f with
+        | Some a, Some b, Some c, Some d, Some e, Some f =>
+            built_rt (decode_introspection ef_empty) (encode_introspection ef_empty) (render_introspection render_unit)
+              {| ir_active := a; ir_scopes := b; ir_client_id := c; ir_username := None; ir_token_type := d;
+                 ir_exp := e; ir_iat := None; ir_nbf := None; ir_sub := None; ir_aud := f; ir_iss := None;
+                 ir_jti := None; ir_extra := tt |}
+        | _, _, _, _, _, _ => bad_case
+        end
+      else if is_kw "err-basic" fam then
+        match untok_bytes a, untok_opt b, untok_opt c with
+        | Some a, Some b, Some c =>
+            built_rt (decode_error basic_from_str) (encode_error basic_as_ref) (render_error_short basic_as_ref)
+              (mkErr (basic_from_str a) b c)
+        | _, _, _ => bad_case
+        end
+      else if is_kw "err-device" fam then
+        match untok_bytes a, untok_opt b, untok_opt c with
+        | Some a, Some b, Some c =>
+            built_rt (decode_error device_from_str) (encode_error device_as_ref) (render_error_short device_as_ref)
+              (mkErr (device_from_str a) b c)
+        | _, _, _ => bad_case
+        end
+      else bad_case
   | _ => bad_case
   end.
 
@@ -826,6 +875,7 @@ Definition run_line (line : bytes) : bytes :=
       else if is_kw "HTTP" p then run_http ws
       else if is_kw "DBG" p then run_dbg ws
       else if is_kw "DECODE" p then run_decode ws
+      else if is_kw "BUILT" p then run_built ws
       else if is_kw "URLP" p then run_urlp ws
       else if is_kw "REQM2" p then monitor_req false ws
       else if is_kw "AUTHURLM" p then monitor_authurl ws
